@@ -10,6 +10,7 @@
 #   KEEP=1 tools/coverage.sh     keep /tmp/cov/target (1.9 GB) and the raw profiles for re-runs
 #   PROPS="C12 C13" …            only these properties (the "no engine" columns are then relative to that subset)
 #   SEED=7 TIER=thorough …       another seed / tier
+#   THREADS=8 JOBS=8 …           exec worker threads (default 16, as ./check) / cargo build jobs (default: all cores)
 #   STEPS="snap build run merge report"   run only some steps (default: all)
 #
 # Everything lives under $COV (/tmp/cov): repo/ harness/ (snapshots), target/, cases/, prof/, report/.
@@ -35,6 +36,8 @@ SEED=${SEED:-1}
 TIER=${TIER:-quick}
 STEPS=${STEPS:-snap build run merge report}
 TOOLCHAIN=${TOOLCHAIN:-stable}
+THREADS=${THREADS:-16}
+JOBS=${JOBS:-$(nproc)}
 export CARGO_NET_OFFLINE=true
 LLVM_BIN=${LLVM_BIN:-$(ls -d ~/.rustup/toolchains/*/lib/rustlib/*/bin 2>/dev/null | while read d; do [ -x $d/llvm-cov ] && echo $d; done | head -1)}
 [ -x "$LLVM_BIN/llvm-cov" ] || { echo "no llvm-cov / llvm-profdata found under ~/.rustup/toolchains (set LLVM_BIN)"; exit 2; }
@@ -89,7 +92,7 @@ WRAP
   while :; do
     echo "building features: $feats" | tee -a $COV/report/build.txt
     (cd $COV/harness && RUSTC_WRAPPER=$COV/rustc-wrap.sh LLVM_PROFILE_FILE=$COV/trash/build-%p.profraw RUSTFLAGS="$FLAGS" CARGO_TARGET_DIR=$COV/target \
-       cargo +$TOOLCHAIN build --offline --no-default-features --features "$(echo $feats | tr ' ' ',')" > $COV/report/build.log 2>&1) && break
+       cargo +$TOOLCHAIN build -j $JOBS --offline --no-default-features --features "$(echo $feats | tr ' ' ',')" > $COV/report/build.log 2>&1) && break
     # a module that is mid-change by somebody else: drop its feature and say so
     bad=$(grep -oE -- '--> src/(c[0-9]+[a-z]*)(\.rs|/)' $COV/report/build.log | sed -E 's#--> src/##; s#(\.rs|/)$##' | sort -u | head -1)
     [ -n "$bad" ] && echo " $feats " | grep -q " $bad " || { tail -40 $COV/report/build.log; echo "instrumented build failed"; exit 2; }
@@ -141,7 +144,7 @@ if has run; then
     n=$(wc -l < $COV/cases/$p.jsonl)
     [ "$n" -gt 0 ] || { printf "%s\t%s\t0\t0\t0\t0\t(no cases: engine not in the binary)\n" $p "$gens" | tee -a $COV/report/runs.tsv; rm -f $COV/prof/$p.profdata; continue; }
     t0=$(date +%s)
-    LLVM_PROFILE_FILE="$COV/prof/$p/$p-%p-%m%c.profraw" VERIF_SCRATCH=$COV/scratch-$p $H exec --threads 16 < $COV/cases/$p.jsonl > $COV/cases/$p.out 2>> $COV/report/run-$p.err
+    LLVM_PROFILE_FILE="$COV/prof/$p/$p-%p-%m%c.profraw" VERIF_SCRATCH=$COV/scratch-$p $H exec --threads $THREADS < $COV/cases/$p.jsonl > $COV/cases/$p.out 2>> $COV/report/run-$p.err
     t1=$(date +%s)
     nres=$(wc -l < $COV/cases/$p.out); nfail=$(grep -vc '"oracle":\[\]' $COV/cases/$p.out)
     printf "%s\t%s\t%s\t%s\t%s\t%s\n" $p "$gens" $n $nres $nfail $((t1-t0)) | tee -a $COV/report/runs.tsv
